@@ -124,8 +124,8 @@ class Fam:
             G = fg.EllipticCurve(spec[1], spec[2])
             fam = 'Ed' if spec[1].startswith('Ed') else 'W'
             self.key, self.name = f'{fam}/{spec[2]}', f'{spec[1]}/{spec[2]}'
-            self.dom = [0, 1, -1, 2, -2, 3]
-            self.mpdom = [0, 1, -1, 2]
+            self.dom = [0, 1, -1, 2, -2, 3, 'N2']      # 'N2': 2G in normalised coordinates (2: as the plain doubling leaves it)
+            self.mpdom = [0, 1, -1, 2, 'N2']
             self.order = G.order
             self.q = G.order
             self.big = True
@@ -147,7 +147,9 @@ class Fam:
         e = self._cache.get(c)
         if e is None:
             G = self.G
-            if self.kind in ('EC', 'HC'):
+            if c == 'N2':
+                e = G.repeat(G.generator, 2).normalize()
+            elif self.kind in ('EC', 'HC'):
                 e = G.repeat(G.generator, c)       # plain arithmetic: non-normalised coordinates for |c| >= 2
             elif self.kind == 'Cl':
                 e = G(tuple(c), check=False)
@@ -179,6 +181,8 @@ class Fam:
         return self.code(self.G.inversion(self.elem(c)))
 
     def pair_class(self, x, y):
+        if self.kind == 'EC':
+            x, y = (2 if x == 'N2' else x), (2 if y == 'N2' else y)
         ex, ey = self.is_id(x), self.is_id(y)
         if ex and ey:
             return 'e@e'
@@ -388,8 +392,8 @@ def eval_sp(mpc, seam, fam, op, vals, mode, script, seed):
 
 
 def run_sp(job):
-    """job: spec, ops (name prefixes or None), dom ('full' | 'red'), modes (mask patterns for every tuple), points (point scripts
-    at the first draws, for tuples over the reduced alphabet; 0 = none), tier, seed."""
+    """job: spec, tasks = [dict(ops (names / prefixes or None), skip, dom ('full' | 'red') or vals, modes (mask patterns for every
+    tuple), points (point scripts at the first draws, for tuples over the reduced alphabet; 0 = none))], tier, seed."""
     from mc import sp
     part = Part()
     mpc, seam = sp.setup(sec_param=K_SP, no_prss=True)
@@ -398,43 +402,43 @@ def run_sp(job):
     tier = job['tier']
     cfg = f'sp/k{K_SP}'
     red = set(fam.mpdom)
-    dom = job.get('vals') or (fam.dom if job.get('dom', 'full') == 'full' else fam.mpdom)
-    dom = [tuple(v) if isinstance(v, list) else v for v in dom]
-    modes = job.get('modes', ('seeded', 'zero', 'max'))
-    points = job.get('points', 4)
-    names = select(sorted(ops), job.get('ops'), job.get('skip'))
-    for name in names:
-        op = ops[name]
-        for vals in itertools.product(dom, repeat=op.arity):
-            want = op.ref(*[fam.elem(v) for v in vals])
-            if want is None:
-                continue
-            want = result_code(fam, op, want)
-            scripts = [(mo, None) for mo in modes]
-            extra = points and all(v in red for v in vals)
-            i = 0
-            while i < len(scripts):
-                mode, script = scripts[i]
-                i += 1
-                detail = dict(engine='sp', spec=list(fam.spec), name=name, vals=list(vals), mode=mode,
-                              script={str(a): b for a, b in (script or {}).items()}, seed=job['seed'])
-                try:
-                    got, draws = eval_sp(mpc, seam, fam, op, vals, mode, script, job['seed'])
-                except Exception as exc:
-                    part.case(key=None)
-                    part.violation(vkey(fam, op, vals) + ':exception', f'[{cfg}] {fam.name} {name}{tuple(vals)} raised {exc!r:.200} '
-                                   f'(masks: {mode} {script})', detail)
+    for task in job['tasks']:
+        dom = task.get('vals') or (fam.dom if task.get('dom', 'full') == 'full' else fam.mpdom)
+        dom = [tuple(v) if isinstance(v, list) else v for v in dom]
+        modes = task.get('modes', ('seeded', 'zero', 'max'))
+        points = task.get('points', 4)
+        for name in select(sorted(ops), task.get('ops'), task.get('skip')):
+            op = ops[name]
+            for vals in itertools.product(dom, repeat=op.arity):
+                want = op.ref(*[fam.elem(v) for v in vals])
+                if want is None:
                     continue
-                part.case(key=None, nontrivial=bool(draws))
-                part.outcomes.add(stable_hash((fam.name, name, got)) & 0xffffff)
-                if got != want:
-                    part.violation(vkey(fam, op, vals), f'[{cfg}] {fam.name} {name}{tuple(vals)} = {got!r:.160}, plain group gives '
-                                   f'{want!r:.160} (masks: {mode} {script})', detail)
-                if i == 1 and extra:       # after the seeded probe: point scripts on the reduced alphabet
-                    scripts = scripts + [sc for sc in sp.mask_scripts(draws, tier, max_points=points) if sc[0] not in modes]
-                if i == 1 and len(part.samples) < 2 and draws and op.arity == 2 and not fam.is_id(vals[0]):
-                    part.sample(dict(config=cfg, group=fam.name, op=name, inputs=[repr(v)[:60] for v in vals], draws=len(draws),
-                                     result=repr(got)[:80]))
+                want = result_code(fam, op, want)
+                scripts = [(mo, None) for mo in modes]
+                extra = points and all(v in red for v in vals)
+                i = 0
+                while i < len(scripts):
+                    mode, script = scripts[i]
+                    i += 1
+                    detail = dict(engine='sp', spec=list(fam.spec), name=name, vals=list(vals), mode=mode,
+                                  script={str(a): b for a, b in (script or {}).items()}, seed=job['seed'])
+                    try:
+                        got, draws = eval_sp(mpc, seam, fam, op, vals, mode, script, job['seed'])
+                    except Exception as exc:
+                        part.case(key=None)
+                        part.violation(vkey(fam, op, vals) + ':exception', f'[{cfg}] {fam.name} {name}{tuple(vals)} raised {exc!r:.200} '
+                                       f'(masks: {mode} {script})', detail)
+                        continue
+                    part.case(key=None, nontrivial=bool(draws))
+                    part.outcomes.add(stable_hash((fam.name, name, got)) & 0xffffff)
+                    if got != want:
+                        part.violation(vkey(fam, op, vals), f'[{cfg}] {fam.name} {name}{tuple(vals)} = {got!r:.160}, plain group gives '
+                                       f'{want!r:.160} (masks: {mode} {script})', detail)
+                    if i == 1 and extra:       # after the seeded probe: point scripts on the reduced alphabet
+                        scripts = scripts + [sc for sc in sp.mask_scripts(draws, tier, max_points=points) if sc[0] not in modes]
+                    if i == 1 and len(part.samples) < 2 and draws and op.arity == 2 and not fam.is_id(vals[0]):
+                        part.sample(dict(config=cfg, group=fam.name, op=name, inputs=[repr(v)[:60] for v in vals], draws=len(draws),
+                                         result=repr(got)[:80]))
     part.note('blinding_draws_forced_nonzero', seam.blinding_forced)
     part.note('sp_cases_by_family', {fam.key: part.evaluations})
     return part
@@ -561,7 +565,7 @@ def run_mp(job):
             elif isinstance(gots[0], tuple) and gots[0] and gots[0][0] == 'raised':
                 part.violation(key + ':exception', f'[{cfg}] {rfam.name} {name}{vals} raised {gots[0][1]}', detail)
             elif gots[0] != want:
-                part.violation(key + ':mp', f'[{cfg}] {rfam.name} {name}{vals} = {gots[0]!r:.160}, plain group gives {want!r:.160} '
+                part.violation(key, f'[{cfg}] {rfam.name} {name}{vals} = {gots[0]!r:.160}, plain group gives {want!r:.160} '
                                f'(masks {pat})', detail)
             if len(part.samples) < 1 and op.arity == 2 and idx == 3:
                 part.sample(dict(config=cfg, group=rfam.name, op=name, inputs=[repr(v)[:60] for v in vals], mask_pattern=pat,
@@ -595,14 +599,115 @@ def run_mp(job):
 # jobs
 # ------------------------------------------------------------------------------------------
 
-SMALL = [('Sym', 3), ('Sym', 4), ('QR', 7), ('QR', 11), ('QR', 23), ('SG', 23, 11), ('SG', 47, 23), ('Cl', -23), ('Cl', -47), ('Cl', -71)]
+CHEAP = [('Sym', 3), ('QR', 7), ('QR', 11), ('QR', 23), ('SG', 23, 11), ('SG', 47, 23)]
+CLS = [('Cl', -23), ('Cl', -47), ('Cl', -71)]
 CURVES_QUICK = [('EC', 'Ed25519', 'affine'), ('EC', 'Ed25519', 'projective'), ('EC', 'Ed25519', 'extended'), ('EC', 'secp256k1', 'projective')]
-CURVES_MORE = [('EC', 'Ed448', 'affine'), ('EC', 'Ed448', 'projective'), ('EC', 'Ed448', 'extended'), ('EC', 'BN256', 'projective'),
-               ('EC', 'BN256_twist', 'projective')]
+CURVES_MORE = [('EC', 'Ed448', 'affine'), ('EC', 'Ed448', 'projective'), ('EC', 'BN256', 'projective'), ('EC', 'BN256_twist', 'projective')]
+# Ed448/extended is excluded: the plain arithmetic itself is wrong there (open finding of C27, a = 1 curve with a = -1 formulas)
+LADDER = ['reps_sb:F', 'xor_sb:F']          # secret base, ~250-bit secret exponent: ~500 secure curve additions per case
+MP_OPS = ['op:i', 'op:c', 'inv:i', 'sq:i', 'eq:i', 'ne', 'ifelse0:i', 'ifelse1:i', 'ifelse1_pub', 'rep:-2:i', 'rep:3:i', 'op_sp', 'op_ps',
+          'reps_pb', 'reppub', 'rxor_pb', 'xmul_pb', 'rpow_pb', 'reps_sb:Z:-1:c', 'reps_sb:Z:2:i', 'reps_sb:Z:3:c',
+          'reps_sb:F:2:i', 'reps_sb:F:-1:c', 'reps_sb:F:0:c', 'xor_sb:F']
+MP_OPS_LIGHT = ['op:i', 'inv:i', 'eq:i', 'ifelse1:i', 'rep:-2:i', 'op_ps', 'reps_pb:F:2', 'reps_pb:F:-1', 'reppub:F:2',
+                'reps_pb:Z:2', 'reps_sb:Z:-1:c', 'reps_sb:Z:2:i', 'xmul_pb:F:2', 'rpow_pb:F:2', 'rxor_pb:F:-1']
+MP_OPS_CL = ['op:i', 'inv:i', 'eq:i', 'ifelse1:i', 'reps_pb:F:2', 'reppub:F:-1', 'reps_pb:Z:2', 'reppub:Z:-1']
+CORE_BIN = ['op:c', 'eq:c']
 
 
 def jobs(tier, seed):
     out = []
+    q = tier == 'quick'
+    fg = plain_fg()
+
+    def table(spec, m=1):
+        return build_ops(Fam(fg, spec), exact.Dummy(), m)
+
+    def sp(spec, tasks):
+        out.append(dict(engine='sp', spec=spec, tasks=tasks, tier=tier, seed=seed))
+
+    def sp_split(spec, names, n, **kw):
+        for part in [names[i::n] for i in range(n)]:
+            if part:
+                sp(spec, [dict(ops=part, **kw)])
+
+    # ---- single party
+    for spec in [('Sym', 3), ('QR', 7), ('QR', 11), ('QR', 23), ('SG', 23, 11), ('SG', 47, 23), ('Sym', 4), ('Sym', 6)] + CLS + CURVES_QUICK \
+            + ([] if q else CURVES_MORE + [('HC',)]):
+        ops = table(spec)
+        kind = spec[0]
+        ladder = [n for n in ops if any(n.startswith(p) for p in LADDER)] if kind in ('EC', 'HC') else []
+        unary = [n for n in ops if ops[n].arity == 1 and n not in ladder]
+        binary = [n for n in ops if ops[n].arity == 2]
+        if not q:
+            pts = 10 if kind in ('Sym', 'QR', 'SG') else 4 if kind == 'EC' else 6 if spec == ('Cl', -23) else 2
+            n = {'Sym': 8 if spec[1] == 4 else 2, 'Cl': 8, 'EC': 4}.get(kind, 2)
+            sp_split(spec, sorted(unary + binary), n, points=pts)
+            for name in ladder:
+                sp(spec, [dict(ops=[name], modes=('seeded', 'max'), points=0)])
+            continue
+        heavy = kind in ('Cl', 'EC') or spec in (('Sym', 4), ('Sym', 6))
+        if not heavy:
+            sp_split(spec, sorted(unary + binary), 1, points=2)
+            continue
+        if kind == 'Cl':
+            unary = [n for n in unary if n.split(':')[0] in ('inv', 'sq', 'recip', 'reps_pb', 'reppub')
+                     or n in ('rep:-2:c', 'rep:3:i', 'rep:0:c', f'rep:{len(Fam(fg, spec).dom)}:c', 'pow:-2:c', 'rpow_pb:F:2',
+                              'reps_sb:F:2:i', 'reps_sb:F:-1:c', 'reps_sb:Z:-1:c', 'reps_sb:Z:2:i')]
+            small = spec == ('Cl', -23)
+            modes = ('seeded', 'zero', 'max') if small else ('seeded',)
+            sp(spec, [dict(ops=CORE_BIN, modes=modes, points=2 if small else 0)])
+            sp_split(spec, sorted(unary), 2, modes=modes, points=1 if small else 0)
+            sp(spec, [dict(ops=[n for n in binary if n not in CORE_BIN and n.split(':')[0] not in ('chain', 'rdiv', 'rmul')],
+                           dom='red', modes=('seeded',), points=0)])
+        elif kind == 'EC':
+            sp(spec, [dict(ops=CORE_BIN, modes=('seeded', 'max'), points=1),
+                      dict(ops=[n for n in binary if n not in CORE_BIN and n != 'chain:c'], dom='red', modes=('seeded',), points=0)])
+            sp(spec, [dict(ops=sorted(unary), modes=('seeded', 'max'), points=0),
+                      dict(ops=['reps_sb:F:2:i'], vals=[1], modes=('seeded',), points=0)])
+        else:
+            sp_split(spec, CORE_BIN, 2, points=2)
+            sp(spec, [dict(ops=[n for n in sorted(unary) if not n.startswith('reps_sb')], points=2),
+                      dict(ops=['reps_sb'], dom='red', modes=('seeded', 'max'), points=0)])
+            sp(spec, [dict(ops=[n for n in binary if n not in CORE_BIN], dom='red', modes=('seeded', 'max'), points=2)])
+    if q:
+        sp(('EC', 'Ed25519', 'extended'), [dict(ops=['reps_sb:F:-1:c'], vals=[-2], modes=('seeded',), points=0)])
+
+    # ---- multi-party
+    def mp(spec, m, t, no_prss, ops, parts=1, **kw):
+        for part in range(parts):
+            out.append(dict(engine='mp', spec=spec, m=m, t=t, no_prss=no_prss, ops=ops, part=part, parts=parts, tier=tier, seed=seed, **kw))
+    for (m, t) in ((3, 1), (5, 2)):
+        for no_prss in (False, True):
+            sym = ('Sym', 4) if m == 3 else ('Sym', 6)
+            if q:
+                pats = ('seeded', 'max') if m == 3 else ('seeded',)
+                if m == 3:
+                    mp(sym, m, t, no_prss, MP_OPS_LIGHT, parts=2, vals=Fam(fg, sym).mpdom[1:4], patterns=('seeded',), batch=8)
+                else:
+                    mp(sym, m, t, no_prss, ['op:i', 'inv:i', 'eq:i', 'ifelse1:i', 'reps_pb:F:2', 'reps_sb:Z:2:i'], parts=2, vals=[SYM6[3]],
+                       patterns=('seeded',), batch=3)
+                for spec in (('QR', 7), ('QR', 11), ('SG', 23, 11)):     # exponent fields GF(3), GF(5): lifted at m >= 3 / m = 5
+                    mp(spec, m, t, no_prss, MP_OPS, vals=Fam(fg, spec).mpdom[:3], patterns=pats)
+                if m == 3:          # class groups at (5,2): thorough tier only (~30 s per operation)
+                    mp(('Cl', -23), m, t, no_prss, ['op:i', 'eq:i', 'reps_pb:F:2', 'reps_pb:Z:2'], parts=2, vals=[(2, 1, 3)],
+                       patterns=('seeded',), batch=2)
+                curve = {(3, False): ('EC', 'Ed25519', 'extended'), (3, True): ('EC', 'secp256k1', 'projective'),
+                         (5, False): ('EC', 'Ed25519', 'projective'), (5, True): ('EC', 'Ed25519', 'affine')}[m, no_prss]
+                mp(curve, m, t, no_prss, ['op:i', 'inv:i', 'eq:i', 'ifelse1:i', 'reps_pb:F:-1', 'reppub:F:2', 'reps_pb:Z:2', 'reps_sb:Z:-1:c',
+                                          'xmul_pb:F:2'], parts=2, vals=[1, 2], patterns=('seeded',), batch=6)
+                mp(curve, m, t, no_prss, ['eq:i'], vals=[2, 'N2'], patterns=('seeded',), batch=4)     # two representations of 2G
+            else:
+                pats = ('seeded', 'zero', 'max')
+                mp(sym, m, t, no_prss, MP_OPS, parts=6, patterns=pats)
+                for spec in (('QR', 7), ('QR', 11), ('QR', 23), ('SG', 23, 11), ('SG', 47, 23)):
+                    mp(spec, m, t, no_prss, None, patterns=pats)
+                for spec in CLS:
+                    mp(spec, m, t, no_prss, MP_OPS_CL, parts=4, vals=Fam(fg, spec).dom[:3], patterns=('seeded', 'max'), batch=4)
+                for spec in CURVES_QUICK + CURVES_MORE:
+                    mp(spec, m, t, no_prss, MP_OPS, skip=LADDER, parts=3, patterns=('seeded', 'max'), batch=8)
+                mp(('EC', 'Ed25519', 'extended'), m, t, no_prss, ['reps_sb:F:2:i'], vals=[1], patterns=('seeded',), batch=1)
+                mp(('HC',), m, t, no_prss, MP_OPS, skip=LADDER, parts=2, patterns=('seeded', 'max'), batch=8)
+    out.sort(key=lambda j: -(j.get('m', 0) * 10 + (j['spec'][0] in ('Cl', 'EC', 'HC'))))
     return out
 
 
